@@ -53,6 +53,11 @@
 #define DEFAULT_SORTER_TEMP_DIR		"/var/tmp"
 #define DEFAULT_SORTER_MEMORY		1073741824
 #define MIN_SORTER_MEMORY		10485760
+#ifdef MTBL_VERIF
+/* verification hook: let external sorts with kilobyte-sized inputs spill to several chunks */
+#undef MIN_SORTER_MEMORY
+#define MIN_SORTER_MEMORY		1
+#endif
 #define INITIAL_SORTER_VEC_SIZE		131072
 
 #define DEFAULT_FILESET_RELOAD_INTERVAL	60
